@@ -92,6 +92,12 @@ TX = ("b.a", "TXT", 600, '"t"')
 MX = ("*.w", "MX", 300, "10 mail.example.")
 EXTRA = ("x", "A", 300, "10.9.9.9")    # never part of any version: the surplus record
 UNIVERSE = [NS1, NS2, A1, A2, TX, MX]
+# signatures: RRsets that differ only in the covered type (a whole RRSIG RRset of one covered
+# type disappears / is replaced in an incremental step, as in a re-signed zone)
+SIGA = ("a", "RRSIG", 300, "A 8 2 300 20300101000000 20000101000000 1 example. AAAA")
+SIGA2 = ("a", "RRSIG", 300, "A 8 2 300 20310101000000 20010101000000 2 example. BBBB")
+SIGT = ("a", "RRSIG", 300, "TXT 8 2 300 20300101000000 20000101000000 1 example. CCCC")
+SIGNS = ("@", "RRSIG", 300, "NS 8 1 300 20300101000000 20000101000000 1 example. DDDD")
 
 CHAINS = {
     # adds, a changed record inside an RRset, an SOA-only step with a serial gap
@@ -102,6 +108,9 @@ CHAINS = {
           (soa(2, 61, 1800), [NS1, A1L, A2L])],
     # partial RRset deletion, several adds incl. wildcard owner / compressible rdata
     "C": [(soa(10), [NS1, A1, A2]), (soa(11), [NS1, A2]), (soa(12), [NS1, NS2, A2, TX, MX])],
+    # signed zone: all signatures covering one type removed, then re-signed
+    "D": [(soa(20), [NS1, SIGNS, A1, SIGA, SIGT]), (soa(21), [NS1, SIGNS, A1, SIGT]),
+          (soa(22), [NS1, SIGNS, A1, SIGA2, SIGT])],
 }
 
 
@@ -403,7 +412,8 @@ def pre_parts(relativize, pre):
                     name = name.relativize(ORIGIN)
                     rd = dns.rdata.from_text(IN, rtype, rd.to_text(), origin=ORIGIN,
                                              relativize=True, relativize_to=ORIGIN)
-                g = groups.setdefault((name, rd.rdtype), [name, dns.rdataset.Rdataset(IN, rd.rdtype)])
+                g = groups.setdefault((name, rd.rdtype, rd.covers()),
+                                      [name, dns.rdataset.Rdataset(IN, rd.rdtype, rd.covers())])
                 g[1].add(rd, ttl)
             parts.append(list(groups.values()))
         _pre_cache[key] = parts
